@@ -557,7 +557,7 @@ def lifecycle_cases():
 
 
 def gen_cases(rng, tier):
-    n = {"quick": 400, "thorough": 6000, "search": 600}.get(tier, 400)
+    n = {"quick": 400, "thorough": 2400, "search": 600}.get(tier, 400)   # every stop-ended case keeps a block of 8 ports until its process exits
     out = lifecycle_cases()
     # every verb x every selector at least once, fresh and after bootstrap
     allv = WORKER_VERBS + UNSERVED
